@@ -112,8 +112,11 @@ partial def plantAt (s : Stmt) (site : Site) (text : String) (pos : Nat) : Stmt 
 def kfC11 (r : Rule) (ctx : String) : String :=
   let inGroup := ctx.toList.take 6 == "group>".toList
   let below := ctx ≠ "top"
+  -- a nested statement inside an operand of a combination of nested statements
+  let deepInOperand := (ctx.splitOn "operand>nested>").length > 1
   if inGroup && (r = .twoPairs || r = .typeMix) then "C11-rule-not-enforced-inside-pair-group"
   else if below && r = .twoPairs then "C11-two-pairs-below-top-level-other-code"
+  else if deepInOperand && (r = .typeMix || r = .mixedNested) then "C11-combination-rule-deep-inside-combination-operand"
   else ""
 
 def genC11Cases (tier : String) (seed : Nat) : Array Case := Id.run do
@@ -163,6 +166,12 @@ def genC11Cases (tier : String) (seed : Nat) : Array Case := Id.run do
         out := out.push { id := s!"c11-f{fb}-{rule.name}-{pos}", op := "conv", args := a1, exp := Json.str rule.code,
                           tag := rule.name ++ "@fixed", note := n1 }
     fb := fb + 1
+  -- witness of an open finding: a type-mixed combination inside a nested statement of an operand
+  -- of a three-level combination, where operand and nested statement hold component-level combinations
+  let deepW := "A(x) I(y) Bind{Bind{A(a) I(b)} [AND] {Bind{Cex(c)} [XOR] {Bind{M((m1 [AND] m2)) E((e1 [XOR] e2)) P{Cex((c1 [XOR] c2)) Bdir,p((s [XOR] t)) Cac{Cac{A(ta) I(tb)} [AND] Bdir{A(tc) I(td)}}}} [OR] Bind{F(f)}}}}"
+  out := out.push { id := "c11-deep-witness", op := "conv", args := Json.mkObj [("text", (deepW : Json)), ("id", ("1" : Json))],
+                    exp := Json.str Rule.typeMix.code, tag := "type-mix@witness",
+                    note := Json.mkObj [("kf", ("C11-combination-rule-deep-inside-combination-operand" : Json)), ("rule", ("type-mix" : Json)), ("ctx", ("operand>nested>top" : Json))] }
   -- a lone closing or opening bracket in statements that otherwise contain no bracket of that kind
   for (t, k) in [("A(Program Manager) D(may) I(inspect) Bdir(certified operations)}", 0), ("A(actor) I(act) } Bdir(x)", 1),
                  ("{ A(actor) I(act)", 2), ("A(actor) I(act) Cac{A(x) I(y)", 3), ("A(actor) I(act)) Bdir(x)", 4), ("A(actor I(act)", 5),
